@@ -6,7 +6,7 @@ import random
 import gen
 import steps as S
 from common import Case, b, lst, nat, opt
-from prosemirror.model import Node
+from prosemirror.model import Fragment, Node
 from prosemirror.transform import AddMarkStep, RemoveMarkStep, Transform
 from prosemirror.transform.transform import TransformError
 
@@ -37,11 +37,48 @@ def markop_case(fam, doc, a, c, add, mark, mtype):
     return Case(coq=coq, desc=desc, schema=info.schema_term(), kind=kind, nontrivial=len(hist) > 0)
 
 
+def sandwiches(rng, sc):
+    """documents P(B..) T(B..) P(B..) where mark A excludes mark B, P allows A and B, T allows B but not A:
+    adding A across all three must strip B in the outer blocks only"""
+    tbs = [t for t in sc.nodes.values() if t.is_textblock and not t.has_required_attrs()]
+    out = []
+    for A in sc.marks.values():
+        for B in A.excluded:
+            if B == A:
+                continue
+            Ps = [t for t in tbs if t.allows_mark_type(A) and t.allows_mark_type(B)]
+            Ts = [t for t in tbs if t.allows_mark_type(B) and not t.allows_mark_type(A)]
+            for P in Ps[:2]:
+                for T in Ts[:2]:
+                    try:
+                        b = B.create({k: "foo" for k, at in B.attrs.items() if not at.has_default} or None)
+                        a = A.create({k: "foo" for k, at in A.attrs.items() if not at.has_default} or None)
+                        blocks = [P.create(None, sc.text("one", [b])), T.create(None, sc.text("two", [b])),
+                                  P.create(None, Fragment.from_([sc.text("th", [b]), sc.text("ree")]))]
+                        if rng.random() < 0.5:
+                            blocks.append(T.create(None, sc.text("four", [b])))
+                        d = sc.top_node_type.create_and_fill(None, Fragment.from_(blocks))
+                        if d is None:
+                            continue
+                        d.check()
+                        out.append((d, a, b))
+                    except ValueError:
+                        continue
+    return out
+
+
 def generate(rng: random.Random, tier: str):
     quick = tier == "quick"
     for fam in gen.FAMILY:
         g, docs = S.family_docs(rng, fam, 10 if quick else 120)
         sc = gen.family(fam)
+        for d, a_mark, b_mark in sandwiches(rng, sc):
+            n = d.content.size
+            for (x, y) in [(0, n), (1, n - 1), (2, n - 2)] + [S.rand_range(rng, d) for _ in range(2 if quick else 6)]:
+                if 0 <= x <= y <= n:
+                    yield markop_case(fam, d, x, y, True, a_mark, None)
+            yield markop_case(fam, d, 0, n, False, b_mark, None)
+            yield markop_case(fam, d, 0, n, False, None, b_mark.type)
         for doc in docs:
             for _ in range(8 if quick else 30):
                 a, c = S.rand_range(rng, doc)
